@@ -35,7 +35,7 @@ PUMP = {"quick": [9, 33, 257], "thorough": [9, 17, 33, 65, 129, 257, 1025, 4099]
 BIG = [65536, 131072]  # sizes at which block-wise processing would switch on: texts a few characters longer than these
 STEPS = ["inline_whitespace", "all_whitespace", "underscores"]
 BAD = ["nope", "HTML", "", " html", None, 5, "Html", "all_whitespace "]
-TEXTS = ["foo", "bar baz", " ", "a &amp; b", "x&lt;y", "\n  qux\n"]
+TEXTS = ["foo", "bar baz", " ", "a &amp; b", "x&lt;y", "\n  qux\n", "&amp;sect; 5", "q=a&amp;copy=1"]
 INL = ["i", "b", "span", "a"]
 BLK = ["p", "div"]
 HID = ["script", "style"]
